@@ -1,4 +1,100 @@
-import Props.Lemmas
+/-
+  C03 — each segment starts at the VRAM address the document requests.
+-/
+import Props.Writer
 namespace Slinky.C03
-theorem placeholder : True := trivial
+open Slinky W
+
+/-- **the address request of a segment**, in this priority: the `fixed_vram` literal, the
+`fixed_symbol` text, the VRAM end symbol of `follows_segment`, the start symbol of its vram
+class, or no address at all (the linker then continues at the current location). -/
+theorem header_address (cx : Ctx) (seg : Segment) :
+    segAddr cx seg =
+      match seg.fixedVram, seg.fixedSymbol, seg.followsSegment, seg.vramClass with
+      | some v, _, _, _ => some (c!"0x" ++ toHex8 v)
+      | none, some s, _, _ => some s
+      | none, none, some f, _ => some (cx.d.settings.style.segVramEnd f)
+      | none, none, none, some c => some (cx.d.settings.style.classStart c)
+      | none, none, none, none => none := by
+  unfold segAddr
+  cases seg.fixedVram <;> cases seg.fixedSymbol <;> cases seg.followsSegment <;> cases seg.vramClass <;> rfl
+
+/-- for every *parsed* segment at most one of the four address fields is set, so the priority
+above never has to choose. -/
+theorem address_fields_exclusive (st : Settings) (s : SegmentS) (seg : Segment)
+    (h : segmentRest st s = .ok seg) :
+    atMostOne [seg.fixedVram.isSome, seg.fixedSymbol.isSome, seg.followsSegment.isSome, seg.vramClass.isSome] = true := by
+  unfold segmentRest at h
+  peel h
+  all_goals first
+    | contradiction
+    | injection h with h
+      subst h
+      simp_all
+
+/-- **shape of the two output sections of a segment.** The allocatable part is
+`.name [<address request>] : AT(<ROM start symbol>) [SUBALIGN(n)]`, the noload part is
+`.name.noload (NOLOAD) : [SUBALIGN(n)]` without any address — it simply follows. -/
+theorem section_headers (cx : Ctx) (seg : Segment) :
+    segmentStart cx seg false = kindStart cx seg false ++
+        [.outHdr (c!"." ++ seg.name) false (segAddr cx seg) (some (cx.d.settings.style.segRomStart seg.name)) seg.subalign,
+         .blockOpen] ∧
+    segmentStart cx seg true = kindStart cx seg true ++
+        [.outHdr (c!"." ++ seg.name ++ c!".noload") true none none seg.subalign, .blockOpen] := by
+  constructor <;> rfl
+
+/-- **the statements around the two parts.** For an emitted segment `add_segment` writes, in
+this order: the class prologue (if it opens a class), the start alignment of `__romPos` and of
+`.`, `ROM_START = __romPos`, `<seg>_VRAM = ADDR(.<seg>)` — the start symbol is the address at
+which the linker places the segment, whatever it is — the allocatable part, the noload part,
+`__romPos += SIZEOF(.<seg>)`, the end alignment of `__romPos` and of `.`, then
+`<seg>_VRAM_END = .` — the location after the noload part, rounded up — and the sizes. -/
+theorem segment_statements (cx : Ctx) (seg : Segment) (cls alloc noload : List Line) :
+    segmentLines cx seg cls alloc noload =
+      cls
+      ++ (match seg.segmentStartAlign with
+          | some a => [alignSymbol c!"__romPos" a, alignSymbol c!"." a] | none => [])
+      ++ [linkerSym (cx.d.settings.style.segRomStart seg.name) (.sym c!"__romPos"),
+          linkerSym (cx.d.settings.style.segVramStart seg.name) (.addr (c!"." ++ seg.name))]
+      ++ alloc ++ [.blank] ++ noload ++ [.blank]
+      ++ [.addAssign c!"__romPos" (.sizeofE (c!"." ++ seg.name))]
+      ++ (match seg.segmentEndAlign with
+          | some a => [alignSymbol c!"__romPos" a, alignSymbol c!"." a] | none => [])
+      ++ [linkerSym (cx.d.settings.style.segVramEnd seg.name) .dot,
+          linkerSym (cx.d.settings.style.segVramSize seg.name)
+            (.absSub (cx.d.settings.style.segVramEnd seg.name) (cx.d.settings.style.segVramStart seg.name)),
+          linkerSym (cx.d.settings.style.segRomEnd seg.name) (.sym c!"__romPos"),
+          linkerSym (cx.d.settings.style.segRomSize seg.name)
+            (.absSub (cx.d.settings.style.segRomEnd seg.name) (cx.d.settings.style.segRomStart seg.name))]
+      ++ (match seg.vramClass with
+          | some cname => [.blank, maxSelf (cx.d.settings.style.classEnd cname) (cx.d.settings.style.segVramEnd seg.name)]
+          | none => [])
+      ++ [.blank] := by
+  cases h1 : seg.segmentStartAlign <;> cases h2 : seg.segmentEndAlign <;> cases h3 : seg.vramClass <;>
+    simp [segmentLines, symEndSize, h1, h2, h3]
+
+/-- single-segment mode honours `fixed_vram` as the initial location and nothing else: the
+script opens with `. = 0x<fixed_vram>;` iff the field is set, and the sections then follow in
+list order without any address. -/
+theorem single_segment_start (cx : Ctx) (seg : Segment) (ls : List Line) (h : addSingleSegment cx seg = .ok ls) :
+    ∃ alloc noload, writeSingleSegment cx seg seg.allocSections false = .ok alloc ∧
+      writeSingleSegment cx seg seg.noloadSections true = .ok noload ∧
+      ls = [.sectionsKw, .blockOpen]
+        ++ (if cx.emitSecSyms then
+              match cx.d.settings.hardcodedGpValue with
+              | some v => [.assign c!"_gp" (.hex8 v) false false false, .blank] | none => []
+            else [])
+        ++ (match seg.fixedVram with
+            | some v => [.assign c!"." (.hex8 v) false false false, .blank] | none => [])
+        ++ alloc ++ [.blank] ++ noload ++ [.blank] ++ endSections cx [] := by
+  unfold addSingleSegment at h
+  split at h
+  · contradiction
+  · rename_i alloc ha
+    split at h
+    · contradiction
+    · rename_i noload hn
+      injection h with h
+      exact ⟨alloc, noload, ha, hn, h.symm⟩
+
 end Slinky.C03
